@@ -83,9 +83,13 @@ class RecProxy:
 
 
 def ev0(op, **kw):
-    e = {"op": op, "n": 0, "data": [], "then": "none", "cls": "", "lib": True, "raw": [], "pk": "none"}
+    e = {"op": op, "n": 0, "data": [], "then": "none", "cls": "", "lib": True, "raw": [], "pk": "none", "anycls": False}
     e.update(kw)
     return e
+
+
+class _LoggedText(Exception):
+    """log mode without a user handler: the report is a log record whose message is a text (class not observable)"""
 
 
 class HandlerEscalation(Exception):
@@ -107,7 +111,8 @@ def run_reader(stream, validate=1, parsed=True, quit=1, handler=True, labelmsm=1
         if log:
             log[-1]["_handler"] = log[-1].get("_handler", 0) + 1
             log[-1]["_hcls"] = type(err).__name__
-            log[-1]["_hlib"] = isinstance(err, decode_rec.lib_classes())
+            log[-1]["_hlib"] = isinstance(err, decode_rec.lib_classes()) or isinstance(err, _LoggedText)
+            log[-1]["_hany"] = isinstance(err, _LoggedText)
         else:
             log.append({"op": "orphan-handler"})
         if hraise and handler and (len(herrs) - 1) in hraise:
@@ -123,11 +128,13 @@ def run_reader(stream, validate=1, parsed=True, quit=1, handler=True, labelmsm=1
 
     class _LogTap(logging.Handler):
         def emit(self, record):
+            if "socket" in record.name:
+                return      # (the socket wrapper's own diagnostics are not the reader's error reports)
             msg = record.msg
-            on_err(msg if isinstance(msg, BaseException) else RuntimeError(str(msg)))
+            on_err(msg if isinstance(msg, BaseException) else _LoggedText(str(msg)))
 
     tap = None
-    lg = logging.getLogger("pyrtcm.rtcmreader")
+    lg = logging.getLogger("pyrtcm")      # the package logger: the reader's module logger propagates to it
     if not handler:
         tap = _LogTap(level=logging.ERROR)
         lg.addHandler(tap)
@@ -180,6 +187,7 @@ def _run_reader(stream, log, on_err, validate, parsed, quit, handler, labelmsm, 
                 x["then"] = "handler"
                 x["cls"] = e["_hcls"]
                 x["lib"] = e["_hlib"]
+                x["anycls"] = bool(e.get("_hany"))
                 if e["_handler"] > 1:
                     x["then"] = "handler-twice"
             events.append(x)
@@ -212,7 +220,7 @@ def _run_reader(stream, log, on_err, validate, parsed, quit, handler, labelmsm, 
         if msg is None:
             last["pk"] = "none"
         else:
-            unknown = "Not_Yet_Implemented" in str(msg)
+            unknown = decode_rec.is_stub(msg)
             last["pk"] = "stub" if unknown else "msg"
         results.append((raw, msg))
     return events, results
@@ -236,7 +244,7 @@ def observables(tr):
     ob = []
 
     def o(t, **kw):
-        x = {"t": t, "cls": "", "lib": True, "raw": [], "pk": "none"}
+        x = {"t": t, "cls": "", "lib": True, "raw": [], "pk": "none", "anycls": False}
         x.update(kw)
         ob.append(x)
 
@@ -249,7 +257,7 @@ def observables(tr):
             continue
         if th in ("handler", "handler-twice"):
             for _ in range(2 if th == "handler-twice" else 1):
-                o("handler", cls=e["cls"], lib=bool(e["lib"]))
+                o("handler", cls=e["cls"], lib=bool(e["lib"]), anycls=bool(e.get("anycls")))
         elif th == "raise":
             if tr.get("hraise") and e["op"] == "read" and e["n"] == 0 and ob and ob[-1]["t"] == "handler":
                 o("hraise")
